@@ -498,6 +498,9 @@ func TestCheck(t *testing.T) {
 		r.Eval(fmt.Sprintf("conc|%s|%d|%d|%d", f.kind, s.readChunk, s.bufSize, s.writeSplit))
 	})
 
+	// -- real crypto/tls flights (accepted ECH, with and without HelloRetryRequest) under fragmentation and cuts --
+	capturedWorkload(r, ca)
+
 	r.Floor("replays_ok", int64(n/2))
 	r.Floor("cuts_ok", int64(len(jobs)/3))
 	r.Floor("record_lengths_covered", int64(len(lens)))
